@@ -6,7 +6,8 @@ import re
 
 TYPES = {"g": 1, "pn": 2, "f": 3, "l": 4, "mv": 5, "s": 6, "m": 7, "mm": 8}
 NODES = ["", "a", "aa", "ab", "b", "n1", "n10", "n2"]
-NVALS = 12
+NVALS = 14          # 12, 13: CBOR-registered structs (register values only, never set elements / map keys)
+STRUCT_VALS = [12, 13]
 U64 = 2 ** 64
 
 
@@ -136,7 +137,7 @@ def local_ops(t, r, rng, small=False):
     if t == "f":
         return [{"o": "enable", "d": r, "s": r}]
     if t == "mv":
-        return [{"o": "mvset", "d": r, "s": r, "n": n, "e": e} for e in ev]
+        return [{"o": "mvset", "d": r, "s": r, "n": n, "e": e} for e in (ev if small else ev + STRUCT_VALS)]
     if t == "s":
         return [{"o": "add", "d": r, "s": r, "n": n, "e": e} for e in ev] + [{"o": "rem", "d": r, "s": r, "e": e} for e in ev]
     raise ValueError(t)
@@ -183,7 +184,7 @@ def gen_random_prog(pid, t, rng, nops, R=3, S=3, lww_unique=True, with_delta=Tru
                     elif inner == "f":
                         ops.append({"o": "enable", "d": vs, "s": vs})
                     elif inner == "mv":
-                        ops.append({"o": "mvset", "d": vs, "s": vs, "n": n, "e": rng.choice([1, 2, 5])})
+                        ops.append({"o": "mvset", "d": vs, "s": vs, "n": n, "e": rng.choice([1, 2, 5, 12])})
                     ops.append({"o": "mset", "d": r, "s": r, "n": n, "e": k, "a": vs})
                 elif y < 0.55:  # read-modify-write of the nested value (the usual usage)
                     ops.append({"o": "mget", "d": 14, "s": r, "e": k})
@@ -264,3 +265,40 @@ def exhaustive_progs(t, L, R, rng=None, small=True):
         for s in seq:
             ops += [dict(o) for o in s]
         yield ops + post
+
+
+def gen_common_then_diverge(pid, t, rng, R=3):
+    """replicas reach a COMMON state (several adds, full sync), then each one only removes (and sometimes re-adds)
+    elements on its own — equal clocks / equal cardinalities with different contents — then the join laws.
+    t in ("s", "m")."""
+    ops = [{"o": "new", "d": i, "t": t} for i in range(R)]
+    elems = rng.sample([1, 2, 4, 5, 10], rng.choice([2, 3, 4]))
+    if t == "m":
+        for r in range(R):
+            ops.append({"o": "new", "d": 10 + r, "t": "g"})
+            ops.append({"o": "inc", "d": 10 + r, "s": 10 + r, "n": REPL_NODE[r], "v": 1 + r})
+    for e in elems:
+        r = rng.randrange(R) if rng.random() < 0.5 else 0
+        if t == "s":
+            ops.append({"o": "add", "d": r, "s": r, "n": REPL_NODE[r], "e": e})
+        else:
+            ops.append({"o": "mset", "d": r, "s": r, "n": REPL_NODE[r], "e": e, "a": 10 + r})
+    for _round in range(2):                       # everybody ends with the same state
+        for a in range(R):
+            for b in range(R):
+                if a != b:
+                    ops.append({"o": "merge", "d": a, "a": a, "b": b})
+    nrem = rng.choice([1, 1, 2])
+    for r in range(R):
+        k = nrem if rng.random() < 0.8 else rng.randrange(0, len(elems) + 1)
+        for e in rng.sample(elems, min(k, len(elems))):
+            ops.append({"o": "rem" if t == "s" else "mrem", "d": r, "s": r, "e": e})
+        if rng.random() < 0.2:
+            e = rng.choice(elems)
+            if t == "s":
+                ops.append({"o": "add", "d": r, "s": r, "n": REPL_NODE[r], "e": e})
+            else:
+                ops.append({"o": "mset", "d": r, "s": r, "n": REPL_NODE[r], "e": e, "a": 10 + r})
+    for (a, b, c) in ((0, 1, 2 % R), (1, 2 % R, 0), (2 % R, 0, 1)):
+        ops.append({"o": "laws", "a": a, "b": b, "c": c})
+    return {"id": pid, "t": t, "kind": "common-then-diverge-" + t, "ops": ops}
